@@ -504,3 +504,160 @@ Proof.
   2:{ apply bchars_lack_colon. rewrite forallb_app, cat_str_ns_bchars. apply items_bchars. }
   simpl app. cbv iota beta. rewrite py_int_show_N. simpl rbind. now rewrite parse_pref_ns.
 Qed.
+
+(* ================================================================================================ *)
+(* C. the stable sort                                                                               *)
+(* ================================================================================================ *)
+Section Sort.
+Context {A : Type} (lt : A -> A -> bool).
+(* x may stand before y *)
+Definition le_of (x y : A) : Prop := lt y x = false.
+Hypothesis asym : forall x y, lt y x = true -> lt x y = false.
+Hypothesis trans : forall x y z, le_of x y -> le_of y z -> le_of x z.
+
+Lemma insert_by_perm x l : Permutation (x :: l) (insert_by lt x l).
+Proof.
+  induction l as [|y r IH]; simpl; [apply Permutation_refl|].
+  destruct (lt y x); [|apply Permutation_refl].
+  eapply Permutation_trans; [apply perm_swap|]. now apply perm_skip.
+Qed.
+
+Lemma stable_sort_perm l : Permutation l (stable_sort lt l).
+Proof.
+  induction l as [|x r IH]; simpl; [constructor|].
+  eapply Permutation_trans; [apply perm_skip, IH|]. apply insert_by_perm.
+Qed.
+
+Lemma insert_by_sorted x l : StronglySorted le_of l -> StronglySorted le_of (insert_by lt x l).
+Proof.
+  induction l as [|y r IH]; intros S; simpl.
+  - constructor; constructor.
+  - inversion S as [|? ? Sr Fy]; subst. destruct (lt y x) eqn:E.
+    + constructor; [now apply IH|].
+      apply (Permutation_Forall (insert_by_perm x r)). constructor; [|exact Fy].
+      unfold le_of. now apply asym.
+    + constructor; [exact S|]. constructor; [exact E|].
+      eapply Forall_impl; [|exact Fy]. intros z Hz. now apply (trans x y z).
+Qed.
+
+Lemma stable_sort_sorted l : StronglySorted le_of (stable_sort lt l).
+Proof. induction l as [|x r IH]; simpl; [constructor|now apply insert_by_sorted]. Qed.
+End Sort.
+
+(* sorting a sorted list changes nothing (no hypothesis on the comparison needed) *)
+Lemma stable_sort_id {A} (lt : A -> A -> bool) l : StronglySorted (le_of lt) l -> stable_sort lt l = l.
+Proof.
+  induction l as [|x r IH]; intros S; [reflexivity|]. inversion S as [|? ? Sr Fx]; subst.
+  simpl. rewrite (IH Sr). destruct r as [|y r']; [reflexivity|]. simpl.
+  inversion Fx as [|? ? Hy _]; subst. unfold le_of in Hy. now rewrite Hy.
+Qed.
+
+Lemma StronglySorted_ext_in {A} (R R' : A -> A -> Prop) l :
+  (forall x y, In x l -> In y l -> R x y -> R' x y) -> StronglySorted R l -> StronglySorted R' l.
+Proof.
+  induction l as [|x r IH]; intros H S; [constructor|]. inversion S as [|? ? Sr Fx]; subst.
+  constructor.
+  - apply IH; [|exact Sr]. intros a b Ha Hb. apply H; now right.
+  - rewrite Forall_forall in *. intros y Hy. apply H; [now left|now right|now apply Fx].
+Qed.
+
+(* ---- the key of write's sort ---- *)
+Lemma key_lt_spec mu y x :
+  key_lt mu y x = true <->
+  (mult_of mu x < mult_of mu y)%N \/ (mult_of mu y = mult_of mu x /\ List.length x < List.length y).
+Proof.
+  unfold key_lt. rewrite orb_true_iff, andb_true_iff, N.ltb_lt, N.eqb_eq, Nat.ltb_lt. reflexivity.
+Qed.
+
+Lemma key_lt_false mu y x :
+  key_lt mu y x = false <->
+  (mult_of mu y < mult_of mu x)%N \/ (mult_of mu y = mult_of mu x /\ List.length y <= List.length x).
+Proof.
+  rewrite <- not_true_iff_false, key_lt_spec. lia.
+Qed.
+
+Lemma key_lt_asym mu x y : key_lt mu y x = true -> key_lt mu x y = false.
+Proof. rewrite key_lt_spec, key_lt_false. lia. Qed.
+
+Lemma key_le_trans mu x y z : le_of (key_lt mu) x y -> le_of (key_lt mu) y z -> le_of (key_lt mu) x z.
+Proof. unfold le_of. rewrite !key_lt_false. lia. Qed.
+
+Lemma sorted_prefs_sorted i : StronglySorted (le_of (key_lt (c_mult i))) (sorted_prefs i).
+Proof. apply stable_sort_sorted; [apply key_lt_asym|apply key_le_trans]. Qed.
+
+Lemma sorted_prefs_perm i : Permutation (c_prefs i) (sorted_prefs i).
+Proof. apply stable_sort_perm. Qed.
+
+(* multiplicities are non-increasing along the written ballot list *)
+Definition mult_non_increasing (mu : list (ballot * N)) (l : list ballot) : Prop :=
+  StronglySorted (fun x y => (mult_of mu y <= mult_of mu x)%N) l.
+
+Lemma sorted_prefs_non_increasing i : mult_non_increasing (c_mult i) (sorted_prefs i).
+Proof.
+  eapply StronglySorted_ext_in; [|apply sorted_prefs_sorted].
+  intros x y _ _. unfold le_of. rewrite key_lt_false. lia.
+Qed.
+
+(* ---- equality tests ---- *)
+Lemma list_eqb_eq {A} (eqb : A -> A -> bool) :
+  (forall x y, eqb x y = true <-> x = y) -> forall a b, list_eqb eqb a b = true <-> a = b.
+Proof.
+  intros H. induction a as [|x a IH]; intros [|y b]; simpl; split; intros E; try easy.
+  - apply andb_true_iff in E as [E1 E2]. apply H in E1. apply IH in E2. now subst.
+  - injection E as -> ->. apply andb_true_iff. split; [now apply H|now apply IH].
+Qed.
+Lemma cat_eqb_eq a b : cat_eqb a b = true <-> a = b.
+Proof. apply list_eqb_eq. intros x y. apply N.eqb_eq. Qed.
+Lemma ballot_eqb_eq a b : ballot_eqb a b = true <-> a = b.
+Proof. apply list_eqb_eq. apply cat_eqb_eq. Qed.
+Lemma ballot_eqb_refl a : ballot_eqb a a = true.
+Proof. now apply ballot_eqb_eq. Qed.
+Lemma ballot_eqb_neq a b : a <> b -> ballot_eqb a b = false.
+Proof. intros H. destruct (ballot_eqb a b) eqn:E; [|reflexivity]. apply ballot_eqb_eq in E. contradiction. Qed.
+
+(* ---- the table of sorted_view ---- *)
+Definition retable (mu : list (ballot * N)) (l : list ballot) : list (ballot * N) :=
+  map (fun b => (b, mult_of mu b)) l.
+
+Lemma mult_of_retable mu l b : In b l -> mult_of (retable mu l) b = mult_of mu b.
+Proof.
+  unfold mult_of at 1. induction l as [|s l IH]; intros H; [easy|]. simpl.
+  destruct (ballot_eqb b s) eqn:E.
+  - apply ballot_eqb_eq in E. now subst.
+  - destruct H as [->|H]; [now rewrite ballot_eqb_refl in E|now apply IH].
+Qed.
+
+Lemma key_lt_retable mu l x y : In x l -> In y l -> key_lt (retable mu l) y x = key_lt mu y x.
+Proof. intros Hx Hy. unfold key_lt. now rewrite !mult_of_retable. Qed.
+
+Lemma flat_map_ext_in {A B} (f g : A -> list B) l :
+  (forall x, In x l -> f x = g x) -> flat_map f l = flat_map g l.
+Proof.
+  induction l as [|x r IH]; intros H; [reflexivity|]. simpl. rewrite (H x) by now left.
+  rewrite IH; [reflexivity|]. intros y Hy. apply H. now right.
+Qed.
+
+Lemma sorted_view_sorted_prefs i : sorted_prefs (sorted_view i) = sorted_prefs i.
+Proof.
+  unfold sorted_prefs at 1.
+  change (c_prefs (sorted_view i)) with (sorted_prefs i).
+  change (c_mult (sorted_view i)) with (retable (c_mult i) (sorted_prefs i)).
+  apply stable_sort_id.
+  eapply StronglySorted_ext_in; [|apply sorted_prefs_sorted].
+  intros x y Hx Hy. unfold le_of. now rewrite key_lt_retable.
+Qed.
+
+(* writing the sorted view reproduces the file *)
+Lemma sorted_view_meta i : c_meta (sorted_view i) = c_meta i.  Proof. reflexivity. Qed.
+Lemma sorted_view_counts i : write_counts (sorted_view i) = write_counts i.  Proof. reflexivity. Qed.
+Lemma sorted_view_cat_names i : c_cat_names (sorted_view i) = c_cat_names i.  Proof. reflexivity. Qed.
+Lemma sorted_view_mult i : c_mult (sorted_view i) = retable (c_mult i) (sorted_prefs i).  Proof. reflexivity. Qed.
+Lemma sorted_view_prefs i : c_prefs (sorted_view i) = sorted_prefs i.  Proof. reflexivity. Qed.
+
+Theorem write_sorted_view i : cat_write (sorted_view i) = cat_write i.
+Proof.
+  unfold cat_write. rewrite sorted_view_sorted_prefs, sorted_view_meta, sorted_view_counts,
+    sorted_view_cat_names, sorted_view_mult.
+  do 4 f_equal.
+  apply flat_map_ext_in. intros b Hb. unfold ballot_line. now rewrite mult_of_retable.
+Qed.
